@@ -142,7 +142,7 @@ def follow_bytes(rule, crate, wanted, label):
 # ---------------------------------------------------------------- number alphabet
 NUM_INLINE = ("parse::Parser::<R>::peek", "parse::Parser::<R>::peek_or_null", "parse::Parser::<R>::next_char",
               "parse::Parser::<R>::next_char_or_null", "parse::Parser::<R>::eat_char", "parse::Parser::<R>::error",
-              "parse::Parser::<R>::peek_error")
+              "parse::Parser::<R>::peek_error", "parse::Parser::<R>::parse_number_token")
 
 
 def _run_seq(crate, fn_path, seq, args, visits=3):
